@@ -117,6 +117,13 @@ def last_node_overwrites(ctx, rid="R3"):
                 continue
             fd = fd or ctx.fd(key)
             if not is_len_minus_one(fd, c, c.args[1]):
+                idx_at = fd.slice_operand_pure(c, c.args[1])["atoms"]
+                if call("alloc::vec::Vec::len") in idx_at and key.endswith("add_suitable_start_and_end_depot_to_path"):
+                    n += 1
+                    o = ctx.ob("%s.%s.last-node-overwrite#%d" % (rid, key.split("::")[-1], n), "T12", key,
+                               "%s: the element that is overwritten is the last one (index len - 1)" % key.split("::")[-1])
+                    o.loc = c.line()
+                    ctx.bad(o, "the index of the overwrite at %s derives from the length but is not len - 1: it is out of bounds (panic) or hits another node" % c.line(), loc=c.line())
                 continue
             n += 1
             o = ctx.ob("%s.%s.last-node-overwrite#%d" % (rid, key.split("::")[-1], n), "T12", key,
@@ -285,6 +292,8 @@ def rules(ctx):
         ctx.decide(o, not miss, "all five collections are written", "update_tours never writes: %s" % ", ".join(miss))
     tour_vanishes_rule(ctx)
     positions_count_path_nodes(ctx)
+    from . import formulas as _fm
+    _fm.remove_segment_guard(ctx, "R4")
     formation_edits(ctx)
     # the documented effect on formations: every node that leaves or enters a tour has its formation updated (shared with C03.R3)
     from .C03 import formations_in_step
